@@ -90,6 +90,14 @@ pub fn plan_for(seed: u64, run: u64, files: &[(String, Vec<u8>)]) -> C07Plan {
             // production scale: 1.5 million character n-grams (about 35 MB)
             m.char_window_size = m.char_window_size.clamp(2, 7);
             let w = usize::from(m.char_window_size);
+            // keep the tag features inside the (possibly smaller) window
+            for t in m.tag_models.iter_mut() {
+                for d in t.char_ngram_model.iter_mut() {
+                    for tw in d.weights.iter_mut() {
+                        tw.rel_position = tw.rel_position.min(m.char_window_size);
+                    }
+                }
+            }
             m.char_ngram_model.clear();
             let alpha: Vec<char> = ('\u{4e00}'..='\u{4e80}').collect();
             'outer: for &a in &alpha {
